@@ -2,7 +2,7 @@
 # seedtest.sh <ID> [seed-dir-suffix]: verify a seeded change and run the check against it.
 # uses worktree /tmp/seed-<sfx> and output dir /tmp/seedout-<sfx>; baseline build in /tmp/seedbase/_b
 ID=$1; SFX=${2:-$1}
-WT=/tmp/seed-$SFX; OUT=/tmp/seedout-$SFX; LOG=/tmp/seedtest-$SFX.log
+WT=${WT:-/tmp/seed-$SFX}; OUT=${OUT:-/tmp/seedout-$SFX}; LOG=/tmp/seedtest-$SFX.log
 exec >$LOG 2>&1
 set -x
 HEAD=$(git -C /repo rev-parse HEAD)
